@@ -11,6 +11,15 @@ pub trait Adapter {
     async fn read(&mut self, dst: &mut [u8]) -> Result<usize, Self::Error>;
     async fn write(&mut self, src: &[u8]) -> Result<(), Self::Error>;
     async fn flush(&mut self) -> Result<(), Self::Error>;
+
+    /// Verification hook: observes the loop-carried state of `process` at the
+    /// top of every loop iteration. Only present with `--cfg microscpi_verif`.
+    #[cfg(microscpi_verif)]
+    #[doc(hidden)]
+    fn verif_loop_state(
+        &mut self, _kept: &[u8], _proc_offset: usize, _read_offset: usize, _res_len: usize,
+    ) {
+    }
 }
 
 pub trait Interface: ErrorHandler {
@@ -109,6 +118,9 @@ pub trait Interface: ErrorHandler {
         let mut read_offset = 0;
     
         loop {
+            #[cfg(microscpi_verif)]
+            adapter.verif_loop_state(&cmd_buf[..read_offset], proc_offset, read_offset, res_buf.len());
+
             let count = adapter.read(&mut cmd_buf[read_offset..]).await?;
             let read_end = read_offset + count;
             
